@@ -577,3 +577,9 @@ package proto
 //@   assert true {each-instant-goes-through-the-DateTime-conversion}
 //@ loop 0 (rangeindex)
 //@   invariant len(dates) == len(vs)
+
+//@ -- Writer.Reset discards what is staged (the exported face of reset)
+//@ contract (w *Writer) Reset() props(C04,C14)
+//@   requires w != nil
+//@   modifies w.bufOffset, w.needCut, w.vec, contents(w.vec), w.buf.Buf
+//@   ensures len(w.vec) == 0 && w.bufOffset == 0 && len(w.buf.Buf) == 0 && wRI(w) {nothing-staged-after-reset}
